@@ -586,6 +586,10 @@ class Run:
         if k == "obj":
             return z3.BoolVal(True)
         if k == "opaque":
+            if v.t.name in self.ctx.c.config.get("opaque_truthiness", ()):
+                # a python object whose truth value is its own business (enum members such as signal.SIG_DFL == 0, ints behind an opaque type ...):
+                # `if x:` is NOT `if x is not None:` for it - an uninterpreted predicate decides
+                return self.ctx.uf_apply(self, "truthy_" + v.t.name, [v], T.Bool).z
             return z3.BoolVal(True)
         if k == "rec":
             return z3.BoolVal(True)
